@@ -381,7 +381,21 @@ Definition snap0 (c : scase) : snapshot := with_next (snap store0 (sc_colls c) (
 Definition chk_kv (rc : rowchk) (t : scase * list ostep) : bool :=
   walk (kv_step rc) (snap0 (fst t)) (sc_steps (fst t)) (snd t).
 
-Definition chk_C01_kv := chk_kv chk_row_C01.
+(* C01 also says what a read of any OTHER document returns: what it returned before *)
+Definition kv_view (o : obsrow) : resp * resp * bool := (o_get o, o_exp o, o_exists o).
+Definition kv_view_eqb (a b : obsrow) : bool :=
+  (if resp_eq_dec (o_get a) (o_get b) then true else false) && (if resp_eq_dec (o_exp a) (o_exp b) then true else false)
+  && Bool.eqb (o_exists a) (o_exists b).
+Definition chk_step_others_kept : step_chk := fun prev x o ob =>
+  match o with
+  | SKv c k _ =>
+      forallb (fun e => sspair_eqb (fst e) (c, k)
+                        || match look (fst e) (sn_rows prev) with Some o0 => kv_view_eqb o0 (snd e) | None => true end)
+              (sn_rows (os_snap ob))
+  | _ => true
+  end.
+Definition chk_C01_kv (t : scase * list ostep) : bool :=
+  chk_kv chk_row_C01 t && walk chk_step_others_kept (snap0 (fst t)) (sc_steps (fst t)) (snd t).
 Definition chk_C02_kv := chk_kv chk_row_C02.
 Definition chk_C05_kv := chk_kv chk_row_C05.
 Definition chk_C06_kv := chk_kv chk_row_C06.
